@@ -28,7 +28,11 @@ func freePass() {
 		engine.Explore(engine.ExploreOpts{Bound: 0, Workers: 1}, func(c *engine.Chooser) {
 			base := genConfig(c, f.name)
 			for _, q := range []string{"linked", "chan"} {
-				for i := 0; i < iters; i++ {
+				n := iters
+				if base.Ping2 {
+					n = iters * 300 // the window is between two non-synchronising instructions
+				}
+				for i := 0; i < n; i++ {
 					cfg := base
 					cfg.Queue = q
 					var class, detail string
